@@ -1,42 +1,22 @@
 ---------------------------- MODULE SyscallProto ----------------------------
 (* C09, algorithm level: the wrapper/kernel protocol of Syscall.tla as a state machine, with  *)
 (* the decoding idioms found in rusl transcribed as written.                                  *)
-EXTENDS Syscall
+EXTENDS SyscallIdioms
 (* ---------------------------------------------------------------------------------------- *)
 (* The same protocol as a state machine (explored exhaustively by Syscall_MC.cfg: every      *)
 (* behaviour of a conforming wrapper over a small raw domain satisfies the invariants, and   *)
 (* the decoding idioms found in rusl - including the ones that look wrong - are compared     *)
 (* with Decode in the model before they are looked for in the code).                         *)
 CONSTANTS RawDom,      \* finite set of raw values the kernel may answer with
-          Idiom,       \* "bail" | "coerce" | "dup_plus16" | "dup_minus16" | "execve_raw" | "execve_neg"
+          Idiom,       \* one of SyscallIdioms!IdiomSeq
           MaxIssues    \* re-issue budget of the model
 VARIABLES pc, issues, answers, result
 
 vars == <<pc, issues, answers, result>>
 
-\* What the idiom computes from the raw answer: "retry" or a result.
-\*   bail        bail_on_below_zero!: raw > usize::MAX - 4095 => Err(0 - raw as i32)
-\*   coerce      Fd::coerce_from_register: same test, Ok(raw as i32)
-\*   dup_plus16  dup3 as written in the pinned tree: retry iff (raw as i32) = +16, then bail
-\*   dup_minus16 dup3 retrying iff the answer is -EBUSY
-\*   execve_raw  execve as written: Err(raw as i32)      execve_neg: Err(0 - raw as i32)
-As32(raw) == raw   \* sign-preserving truncation is the identity on "pos"/"neg" classes
-IdiomStep(raw) ==
-    CASE Idiom = "bail"   -> IF IsErr(raw) THEN [tag |-> "err", code |-> raw[2]] ELSE [tag |-> "unit"]
-      [] Idiom = "coerce" -> IF IsErr(raw) THEN [tag |-> "err", code |-> raw[2]] ELSE [tag |-> "val", v |-> As32(raw)]
-      [] Idiom = "dup_plus16" ->
-             IF SameRaw(raw, Pos(EBUSY)) THEN [tag |-> "retry"]
-             ELSE IF IsErr(raw) THEN [tag |-> "err", code |-> raw[2]] ELSE [tag |-> "unit"]
-      [] Idiom = "dup_minus16" ->
-             IF SameRaw(raw, Neg(EBUSY)) THEN [tag |-> "retry"]
-             ELSE IF IsErr(raw) THEN [tag |-> "err", code |-> raw[2]] ELSE [tag |-> "unit"]
-      [] Idiom = "execve_raw" -> [tag |-> "err", code |-> IF raw[1] = "neg" THEN 0 - raw[2] ELSE IF raw[1] = "pos" THEN raw[2] ELSE 0]
-      [] Idiom = "execve_neg" -> [tag |-> "err", code |-> IF raw[1] = "neg" THEN raw[2] ELSE IF raw[1] = "pos" THEN 0 - raw[2] ELSE 0]
-
-IdiomKind  == CASE Idiom \in {"bail", "dup_plus16", "dup_minus16"} -> "unit"
-                [] Idiom = "coerce" -> "i32"
-                [] OTHER -> "noreturn"
-IdiomRetry == IF Idiom \in {"dup_plus16", "dup_minus16"} THEN "ebusy" ELSE "none"
+IdiomStep(raw) == IdiomStepOf(Idiom, raw)
+IdiomKind  == IdiomKindOf(Idiom)
+IdiomRetry == IdiomRetryOf(Idiom)
 
 Init == pc = "idle" /\ issues = 0 /\ answers = <<>> /\ result = [tag |-> "pending"]
 
